@@ -1,6 +1,7 @@
 import KyupyVerif.Proofs.NetlistBF
 import KyupyVerif.Proofs.BenchText
 import KyupyVerif.Proofs.VerilogText
+import KyupyVerif.Proofs.VerilogTextConst
 import KyupyVerif.Proofs.BenchEnd
 import KyupyVerif.Proofs.BenchErr
 import KyupyVerif.Proofs.BenchSched
@@ -42,7 +43,8 @@ tree after the `name` callback, handed on by `toR`).  Theorems quantify over ALL
   **text level**: `bench_text_roundtrip`, `verilog_text_roundtrip` — `parse (print x) = some x` for every statement list /
   module list whose names can be written (decidable `validStmt` / `validModule`); `bench_text_layout_irrelevant`,
   `verilog_text_layout_irrelevant` — the same for EVERY layout of the token stream (any ignorable text in front and behind each
-  token: blanks, line breaks, comments of every kind, attributes; decidable `layoutOK`), corollaries
+  token: blanks, line breaks, comments of every kind, attributes; decidable `layoutOK`), and for every SPELLING of every token
+  (token classes: `bench_text_keyword_class`, `verilog_text_token_classes`, `const_spelling_class`, … — see finding 10(a) below), corollaries
   `bench_text_between_statements`, `bench_text_trailing_comment`; `bench_text_to_netlist`, `verilog_text_to_netlist` — the circuit model (1) builds from model
   (2)'s reading of the printed text is the circuit of the statement list, which puts all theorems of (1) behind the text.
   NOT a theorem: the converse (every accepted text is a layout of a token stream) and anything about rejected texts.
@@ -85,14 +87,36 @@ tree after the `name` callback, handed on by `toR`).  Theorems quantify over ALL
   (tags `parsed-sem:*:benchArityB=` / `vArityB=`; disagreement with the generator's knowledge = broken tie); the generators produce
   5..9-input gates (bench kinds, library PRIM), the oracle's ground truth is n-ary, its class `wide-gate` is known finding D33;
   outside the domain σ is compared with the first-four-operands reading (the model follows the code).
-  **Audit finding 10, what was done and what stays restricted.**  (a) TEXT LAYOUTS: `bench_text_layout_irrelevant` / `bench_text_to_net`
-  quantify over the layouts of the CANONICAL token stream `benchToks` — every interface statement spelled `INPUT`; texts spelling
-  `OUTPUT(` / `input(` / `output(` are NOT covered by the layout theorems (they are by `parseBench` itself, by the concrete examples and
-  by the correspondence run on every generated text, which uses all four spellings); `verilog_text_layout_irrelevant` likewise
-  covers plain names written plain and canonical digit strings: escaped spellings of plain names (`\a `) and non-canonical numbers
-  (`[03:0]`) are outside the layout theorems (correspondence only); `verilog_text_to_net` is about the PRINTED text, its "any layout"
-  is `verilog_text_layout_irrelevant` composed by hand (same `parseVerilog` result), not a separate theorem.  NOT DONE: token classes
-  for keyword spellings.  (b) `circOfText` now contains the transformer's raise guard `RStmt.ok` (zero-width / out-of-base sized
+  **Audit finding 10, what was done and what stays restricted.**  (a) TOKEN CLASSES — done.  The layout theorems above quantify over
+  the layouts of the CANONICAL token stream (`INPUT`, plain names plain, canonical digits); the token-class theorems quantify over every
+  member of each token's SPELLING CLASS, the class being what the real lexer / `name` / `range` / `sigsel` callbacks map to the same value
+  (read off the grammar strings; probed against /repo: no spelling of a class builds a different circuit).  Bench: the keyword rules are
+  `("INPUT" | "input")`, `("OUTPUT" | "output")` — four case-SENSITIVE literals, one callback: `bench_text_keyword_class` (every interface
+  statement in its own spelling, any layout, trailing comment), `bench_text_keyword_class_netlist`, `bench_keyword_class_exact` (`isKw` =
+  the four literals), `bench_other_case_rejected` (`Input(a)`: syntax error in every layout).  Verilog: keywords are case-sensitive
+  literals WITHOUT `i` flag — one spelling each (`verilog_keyword_one_spelling`; `Input a;` / `MODULE` rejected: examples);
+  `VerilogTransformer.name` strips backslash and terminator, so an escaped spelling IS the plain name (`escaped_name_same`; there is no
+  `escaped_name_distinct`); `range` takes `int()`: `verilog_text_token_classes` — every name that is no statement keyword plain or
+  escaped (sized constants too: `\4'b0011 `), every range number in any digit string of its value (`[03:00]`), any layout
+  (`spellsB` / `sameTok`, spelled out by `verilog_token_class_def`; `verilog_text_layout_irrelevant` is the reflexive case).  Sized
+  constants are NAMES in the tree; their class is on the model of `sigsel`: `const_spelling_class` (same expansion ⇔ same width and same
+  value modulo `2^width` — bases `b d h` in either case, hex-digit case, leading zeros, excess digits; `const_base_letter_case`,
+  `const_leading_zeros`), from the tree `verilog_const_spelling_same_circuit` (`sameModule`/`sameConst`, incl. `int(width)` with
+  leading zeros and the raise guard), from TEXT `verilog_text_classes_same_circuit`, `verilog_text_classes_to_net`.  The grammar has no
+  base `o`, no `_`, no blank inside a constant, no sign letter (rejected: examples).  STILL RESTRICTED: one of the seven statement
+  keywords used as a NAME and written PLAIN where no statement begins (`wire input;`, `.input(a)`, `INV_X1 assign (…)`) is accepted by
+  `parseVerilog` (concrete examples, correspondence run) but is not a member of `sameTok`'s class (canonical: escaped); the converse
+  (every accepted text is a layout of a spelling of a tree) is not a theorem.  Correspondence/oracle: `harness/c11.py: class_stream`
+  re-prints every generated statement list with random class members (tags `token-class:*`) — model parser == lark == respelled
+  statement list, model circuit == real circuit (tie), real circuit of the respelled text == real circuit of the original text
+  (oracle class `token-class`, the text as replay).
+  **Audit 2, finding 1 — raise guard.**  `circOfText`'s guard only sets `err`, which `toNet` / `toNNet` ignore: `verilog_text_to_net`,
+  `verilog_text_classes_to_net`, C11Library `verilog_text_to_nnet`, `verilog_library_text_end_to_end` now carry `hpos`
+  (`m.stmts.any VStmt.hasPos = false`) and `hrok` (`rs.all RStmt.ok = true` — what the driver evaluates next to `verilogOKB`);
+  `verilog_text_accepted` / `verilog_text_rejected` say what the guard does; witness text `exBadM` (C11Library) is outside.  Bench has no
+  separate guard: `bench` sets `err` itself and `benchOKB` (hypothesis of every semantic bench theorem) IS `err = false`
+  (`bench_ok_is_no_error`).
+  (b) `circOfText` now contains the transformer's raise guard `RStmt.ok` (zero-width / out-of-base sized
   constants).  (c) `VModel` uses the builder's `assignPairs (sigDecls …)`, `outSig`, `inputNames`, `posNames`: bus-bit order, assign bit
   pairing, selects, concatenations, sized constants and declaration look-up are NOT re-specified inside the denotation; these clauses
   rest on `range_expand` (`rangeList` against the closed forms `l + i` / `l - i`), `const_expand` (against `Nat.testBit` of the parsed
@@ -698,6 +722,57 @@ statement list — so `bench_shape`, `bench_lines`, `bench_io_order` above speak
 theorem bench_text_to_netlist (stmts : List BStmt) (hv : stmts.all validStmt = true) :
     KV.BenchText.circOfText (printBench stmts) = some (bench stmts) := by
   simp only [KV.BenchText.circOfText, bench_text_roundtrip stmts hv, Option.map_some]
+
+/-! ### token classes (audit finding 10(a)): the spellings of the interface keyword
+
+`bench.py`: `input: ("INPUT" | "input") parameters -> interface`, `output: ("OUTPUT" | "output") parameters -> interface` — four
+case-SENSITIVE literals (no `i` flag on them; only `NAME` is case-insensitive), one callback.  The class of the statement-leading
+keyword token is exactly these four spellings (`isKw`). -/
+
+/-- **every spelling of the keyword, every layout**: each interface statement of the list carries its OWN keyword spelling
+(`ks : List (spelling × statement)`, every spelling one of the four literals: `kwsOK`); any layout of that token stream
+(`layoutOK`), any ignorable text in front, an unclosed `#` comment behind — the parser returns the statement list -/
+theorem bench_text_keyword_class (ks : List (List Char × BStmt)) (hk : kwsOK ks = true)
+    (hv : (ks.map (·.2)).all validStmt = true) (g0 tail : List Char) (l : List (Tok × List Char))
+    (hl : l.map (·.1) = benchToksK ks) (hg0 : gapB .ws g0 = true) (hlay : layoutOK l = true) (ht : tailOK tail = true) :
+    parseBench (String.ofList (g0 ++ (renderTG l ++ tail))) = some (ks.map (·.2)) := by
+  simp only [parseBench, String.toList_ofList]
+  refine parse_layout_kw ks hk (fun p hp => ?_) g0 tail l hl hg0 hlay ht
+  simp only [List.all_map, List.all_eq_true] at hv
+  exact hv p hp
+
+/-- … and the circuit built from such a text is the circuit of the statement list (so every `bench_*` theorem below speaks about
+texts in all four keyword spellings) -/
+theorem bench_text_keyword_class_netlist (ks : List (List Char × BStmt)) (hk : kwsOK ks = true)
+    (hv : (ks.map (·.2)).all validStmt = true) (g0 tail : List Char) (l : List (Tok × List Char))
+    (hl : l.map (·.1) = benchToksK ks) (hg0 : gapB .ws g0 = true) (hlay : layoutOK l = true) (ht : tailOK tail = true) :
+    KV.BenchText.circOfText (String.ofList (g0 ++ (renderTG l ++ tail))) = some (bench (ks.map (·.2))) := by
+  simp only [KV.BenchText.circOfText, bench_text_keyword_class ks hk hv g0 tail l hl hg0 hlay ht, Option.map_some]
+
+/-- the class is what the grammar says: the four literals … -/
+theorem bench_keyword_class_exact (n : List Char) :
+    isKw n = true ↔ n = "INPUT".toList ∨ n = "input".toList ∨ n = "OUTPUT".toList ∨ n = "output".toList := isKw_iff n
+
+/-- … and nothing else: a text whose first two tokens are a NAME that is NOT one of the four literals (`Input`, `OutPut`,
+`INput`) and `(` is rejected, whatever follows and in whatever layout (lark: the name is an assignment target, `=` must follow) -/
+theorem bench_other_case_rejected (n : List Char) (hn : isKw n = false) (g0 : List Char) (l : List (Tok × List Char))
+    (ts : List Tok) (hl : l.map (·.1) = .name n :: .lpar :: ts) (hok : l.all (fun p => tokOK p.1) = true)
+    (hg0 : gapB .ws g0 = true) (hlay : layoutOK l = true) : parseBench (String.ofList (g0 ++ renderTG l)) = none := by
+  simp only [parseBench, String.toList_ofList]
+  apply not_kw_not_interface n hn _ ts
+  rw [← hl]
+  exact lexes_render l g0 hg0 (by simpa using hok) hlay
+
+/-- the canonical stream is the member of the class with every keyword spelled `INPUT` -/
+theorem bench_keyword_class_canonical (stmts : List BStmt) : benchToksK (stmts.map fun st => (kwInput, st)) = benchToks stmts :=
+  benchToksK_canon stmts
+
+example : kwsOK [("input".toList, .intf ["a"]), ("OUTPUT".toList, .intf ["z"]), ("output".toList, .intf []), ([], .gate "z" "NOT" ["a"])] = true ∧
+    kwsOK [("Input".toList, .intf ["a"])] = false := by decide +kernel
+example : parseBench "input(a) OUTPUT(z)\noutput ( ) z = NOT(a) # end" =
+    some [.intf ["a"], .intf ["z"], .intf [], .gate "z" "NOT" ["a"]] := by decide +kernel
+example : parseBench "Input(a)" = none ∧ parseBench "INPUT(a) OutPut(z)" = none ∧ parseBench "iNPUT (a)" = none := by decide +kernel
+example : isKw "Input".toList = false ∧ isKw "OUTput".toList = false ∧ tokOK (.name "Input".toList) = true := by decide +kernel
 end BenchText
 
 /-! ## text level (lexer + grammar): structural Verilog
@@ -739,6 +814,26 @@ theorem verilog_text_to_netlist (cfg : Cfg) (tl : TL) (m : VModule) (rs : List R
   have := verilog_text_roundtrip [m] (by simp [hv])
   simp only [KV.VerilogText.circOfText, this, hr]
 
+/-- **accepted texts** (audit 2, finding 1): the guard inside `circOfText` only SETS `err` — the dumps `toNet` / `toNNet` ignore it.
+Under the two hypotheses the driver evaluates on every case (`rs.all RStmt.ok`: no sized constant `sigsel` raises on, i.e. width ≥ 1
+and digits below the base; no positional pin — the statement lists the driver receives have none) the guard is off: the circuit of
+the text IS `module …` of the transformed statement list, `err` included.  Every text-level theorem below whose conclusion speaks
+about the built circuit or its meaning carries these two hypotheses; a text such as `INV_X1 u1(.I(1'b2), .ZN(n));` (real
+`verilog.parse`: `ValueError`) is outside. -/
+theorem verilog_text_accepted (cfg : Cfg) (tl : TL) (m : VModule) (rs : List RStmt) (hv : validModule m = true)
+    (hr : toRs m.stmts = some rs) (hpos : m.stmts.any VStmt.hasPos = false) (hrok : rs.all RStmt.ok = true) :
+    KV.VerilogText.circOfText cfg tl (printVerilog [m]) = some (module cfg tl m.ports (rs.map transform)) := by
+  rw [verilog_text_to_netlist cfg tl m rs hv hr, hpos, hrok]
+  simp [Circ.failIf]
+
+/-- … and conversely the guard: a positional pin or a constant outside `RStmt.ok` sets `err` (the model says: the real parser
+raises) -/
+theorem verilog_text_rejected (cfg : Cfg) (tl : TL) (m : VModule) (rs : List RStmt) (hv : validModule m = true)
+    (hr : toRs m.stmts = some rs) (h : m.stmts.any VStmt.hasPos = true ∨ rs.all RStmt.ok = false) :
+    (KV.VerilogText.circOfText cfg tl (printVerilog [m])).map (·.err) = some true := by
+  rw [verilog_text_to_netlist cfg tl m rs hv hr]
+  rcases h with h | h <;> simp [Circ.failIf, h]
+
 /-- the hypotheses are satisfiable: a module with a bus, escaped identifiers (one spelling a keyword), a sized constant, a
 nested concatenation, an unconnected and a positional pin, `tri`, `inout` -/
 def exVM : VModule := ⟨"top", ["a", "z.q", "e"],
@@ -777,6 +872,121 @@ example : (toSel (.sig "4'hA" none)).map sigsel = some (.many ["1'b1", "1'b0", "
     (toSel (.sig "012'd7" (some (1, none)))).map sigsel = some (.one "012'd7[1]") ∧
     (toSel (.cat [.sig "x" none, .sig "2'B10" none])).map sigsel = some (.many ["x", "1'b1", "1'b0"]) ∧
     (toSel (.sig "a'b" none)).isNone = true := by decide +kernel
+
+/-! ### token classes (audit finding 10(a)): keywords, escaped identifiers, range numbers, sized constants
+
+What the real lexer / `VerilogTransformer.name` / `.range` / `.sigsel` map to the same value (read off `verilog.py`):
+keywords are case-SENSITIVE literals (one spelling each); the `name` callback strips backslash and terminator, so `\abc ` IS
+`abc`; `range` takes `int()` of its digit strings; `sigsel` takes `int(width)`, `int(digits, base)` of a sized constant and
+keeps `width` bits. -/
+
+/-- **every spelling, every layout**: the text may spell every token of the canonical stream `modulesT ms` by ANY member of
+its class (`spellsB`, token by token `sameTok`): a name that is no statement keyword plain or as escaped identifier — also a
+sized constant: `\4'b0011 ` —, a range number by any non-empty digit string of the same value (`[03:0]`); literals and keywords
+as they are.  Any layout of that token list (`layoutOK`) parses to `ms`. -/
+theorem verilog_text_token_classes (ms : List VModule) (hv : ms.all validModule = true) (g0 : List Char)
+    (l : List (CT × List Char)) (hl : spellsB (l.map (·.1)) (modulesT ms) = true) (hg0 : gapV .ws g0 = true)
+    (hlay : layoutOK l = true) : parseVerilog (String.ofList (g0 ++ renderL l)) = some ms := by
+  simp only [parseVerilog, String.toList_ofList]
+  exact parse_layout_cls ms hv g0 l hl hg0 hlay
+
+/-- the class relation spelled out: the token itself; a plain word that is no statement keyword as escaped identifier; a
+number as another digit string of the same value -/
+theorem verilog_token_class_def (a t : Tok) :
+    sameTok a t = true ↔ a = t ∨ (∃ w, a = .esc w ∧ t = .word w ∧ kwOf w = none) ∨
+      (∃ ds ds', a = .num ds ∧ t = .num ds' ∧ ds ≠ [] ∧ ds.all Char.isDigit = true ∧ numVal ds = numVal ds') := by
+  cases a <;> cases t <;> simp [sameTok, Option.isNone_iff_eq_none]
+  all_goals grind
+
+/-- the canonical stream is a member of its own class (so `verilog_text_layout_irrelevant` is the special case) -/
+theorem verilog_token_class_refl (ts : List CT) : spellsB ts ts = true := spellsB_refl ts
+
+/-- **escaped names are the same names**: the `name` rule gives `\w ` and `w` the same string (the real callback: `s[1:-1] if
+s[0] == '\\' else s`) — there is no `escaped_name_distinct` in kyupy -/
+theorem escaped_name_same (w : List Char) : tokName (.esc w) = tokName (.word w) := rfl
+
+/-- **keywords have one spelling**: a keyword word, `module` and the one-character literals are spelled by themselves only
+(the grammar's literals carry no `i` flag; `Input`, `WIRE` are plain names, `MODULE` at the top level a lexical error) -/
+theorem verilog_keyword_one_spelling (a : Tok) :
+    (∀ w, (kwOf w).isSome = true → sameTok a (.word w) = true → a = .word w) ∧ (sameTok a .modkw = true → a = .modkw) ∧
+    (∀ c, sameTok a (.sym c) = true → a = .sym c) :=
+  ⟨fun _ hk h => sameTok_kw (by simpa [Option.isNone_iff_eq_none, Option.isSome_iff_ne_none] using hk) h,
+   fun h => sameTok_modkw h, fun _ h => sameTok_sym h⟩
+
+example : kwOf "input".toList = some (.decl .input) ∧ kwOf "Input".toList = none ∧ kwOf "WIRE".toList = none ∧
+    kwOf "ENDMODULE".toList = none := by decide +kernel
+example : parseVerilog "module m(a); Input a; endmodule" = none ∧ parseVerilog "MODULE m(a); input a; endmodule" = none ∧
+    parseVerilog "module m(a); input a; ENDMODULE" = none ∧
+    parseVerilog "module m(a); INPUT a(); endmodule" = some [⟨"m", ["a"], [.inst "INPUT" "a" []]⟩] := by decide +kernel
+
+/-- the hypotheses are satisfiable: `module \m (\a );input [03:00] a;INV \4'b01 (.A(\a ));endmodule` spells
+`module m(a);input [3:0] a;INV \4'b01 (.A(a));endmodule` -/
+def exSpelled : List CT := [(.top, .modkw), (.gen, .esc "m".toList), (.gen, .sym '('), (.gen, .esc "a".toList), (.gen, .sym ')'),
+  (.gen, .sym ';'), (.gen, .word "input".toList), (.gen, .sym '['), (.num, .num "03".toList), (.gen, .sym ':'), (.num, .num "00".toList),
+  (.gen, .sym ']'), (.gen, .word "a".toList), (.gen, .sym ';'), (.gen, .word "INV".toList), (.gen, .esc "4'b01".toList), (.gen, .sym '('),
+  (.gen, .sym '.'), (.gen, .word "A".toList), (.gen, .sym '('), (.gen, .esc "a".toList), (.gen, .sym ')'), (.gen, .sym ')'), (.gen, .sym ';'),
+  (.gen, .word "endmodule".toList)]
+def exSpelledM : VModule := ⟨"m", ["a"], [.decl .input (some (3, some 0)) ["a"], .inst "INV" "4'b01" [.named "A" (some (.sig "a" none))]]⟩
+example : spellsB exSpelled (modulesT [exSpelledM]) = true ∧ [exSpelledM].all validModule = true ∧
+    layoutOK (layout exSpelled) = true := by decide +kernel
+example : parseVerilog "module \\m (\\a );input [03:00] a;INV \\4'b01 (.A(\\a\t));endmodule" = some [exSpelledM] := by decide +kernel
+/-- not in the class: a keyword written escaped is a NAME (a cell type), a different value is a different range -/
+example : sameTok (.esc "input".toList) (.word "input".toList) = false ∧ sameTok (.num "04".toList) (.num "3".toList) = false ∧
+    sameTok (.num []) (.num "0".toList) = false ∧ sameTok (.word "A".toList) (.word "a".toList) = false := by decide +kernel
+
+/-- **sized constants, model level** (`const_expand` for every spelling): `W'Bdigits` and `W''B'digits'` expand to the same bit
+list EXACTLY when the widths are equal and the values agree modulo `2^W` — whatever the base letters (`b d h`, either case: `baseOf`),
+the letter case of hex digits, leading zeros, digits beyond the width -/
+theorem const_spelling_class (w w' : Nat) (b b' : Char) (ds ds' : List Char) :
+    sigsel (.const w b ds) = sigsel (.const w' b' ds') ↔
+      w = w' ∧ parseNum (baseOf b) ds % 2 ^ w = parseNum (baseOf b') ds' % 2 ^ w := const_same_iff w w' b b' ds ds'
+
+/-- the base letter is case-insensitive, leading zeros of the digits do not matter -/
+theorem const_base_letter_case (w : Nat) (ds : List Char) :
+    sigsel (.const w 'B' ds) = sigsel (.const w 'b' ds) ∧ sigsel (.const w 'D' ds) = sigsel (.const w 'd' ds) ∧
+    sigsel (.const w 'H' ds) = sigsel (.const w 'h' ds) := const_base_case w ds
+
+theorem const_leading_zeros (w : Nat) (b : Char) (ds : List Char) : sigsel (.const w b ('0' :: ds)) = sigsel (.const w b ds) :=
+  const_leading_zero w b ds
+
+/-- **sized constants, from the tree**: two module trees that differ only in the spelling of sized constants in assigns and pin
+connections (`sameModule`: names of constants related by `sameConst` — both of the sized-constant shape, same `int(width)`, same
+value modulo `2^width`, both inside or both outside the guard of `sigsel`) build the SAME circuit (both outside the modelled
+domain, or both with `err`, included) -/
+theorem verilog_const_spelling_same_circuit (cfg : Cfg) (tl : TL) (m m' : VModule) (h : sameModule m m' = true) :
+    circOfModule cfg tl m = circOfModule cfg tl m' := circOfModule_same cfg tl m m' h
+
+/-- **all classes together, from TEXT**: two texts — any spellings (`spellsB`) and any layouts of two module trees that differ
+only in the spelling of sized constants — build the same circuit -/
+theorem verilog_text_classes_same_circuit (cfg : Cfg) (tl : TL) (m m' : VModule) (hv : validModule m = true)
+    (hv' : validModule m' = true) (h : sameModule m m' = true) (g0 g0' : List Char) (l l' : List (CT × List Char))
+    (hl : spellsB (l.map (·.1)) (modulesT [m]) = true) (hl' : spellsB (l'.map (·.1)) (modulesT [m']) = true)
+    (hg0 : gapV .ws g0 = true) (hg0' : gapV .ws g0' = true) (hlay : layoutOK l = true) (hlay' : layoutOK l' = true) :
+    KV.VerilogText.circOfText cfg tl (String.ofList (g0 ++ renderL l)) =
+      KV.VerilogText.circOfText cfg tl (String.ofList (g0' ++ renderL l')) := by
+  rw [circOfText_of_parse cfg tl _ m (verilog_text_token_classes [m] (by simp [hv]) g0 l hl hg0 hlay),
+    circOfText_of_parse cfg tl _ m' (verilog_text_token_classes [m'] (by simp [hv']) g0' l' hl' hg0' hlay')]
+  exact circOfModule_same cfg tl m m' h
+
+example : sameConst "4'b0011" "4'B0011" = true ∧ sameConst "4'b0011" "4'd3" = true ∧ sameConst "4'b0011" "4'H03" = true ∧
+    sameConst "4'b0011" "04'b11" = true ∧ sameConst "4'b0011" "4'hF3" = true ∧ sameConst "4'b0011" "4'D19" = true ∧
+    sameConst "4'hA" "4'ha" = true ∧ sameConst "4'b0011" "4'b0111" = false ∧ sameConst "4'b0011" "5'b0011" = false ∧
+    sameConst "1'b1" "1'b3" = false ∧ sameConst "4'b0011" "abc" = false := by decide +kernel
+example : sameModule ⟨"m", ["z"], [.decl .output (some (3, some 0)) ["z"], .assign (.sig "z" none) (.cat [.sig "2'b00" none, .sig "2'h3" none])]⟩
+    ⟨"m", ["z"], [.decl .output (some (3, some 0)) ["z"], .assign (.sig "z" none) (.cat [.sig "02'D0" none, .sig "2'B11" none])]⟩ = true := by
+  decide +kernel
+example : circOfText {} exTL "module m(z); output [3:0] z; assign z = 4'b0011; endmodule" =
+    circOfText {} exTL "module \\m (z); output [03:0] \\z ; assign z = 04'H3; endmodule" := by
+  rw [circOfText_of_parse {} exTL _ ⟨"m", ["z"], [.decl .output (some (3, some 0)) ["z"], .assign (.sig "z" none) (.sig "4'b0011" none)]⟩
+      (by decide +kernel),
+    circOfText_of_parse {} exTL _ ⟨"m", ["z"], [.decl .output (some (3, some 0)) ["z"], .assign (.sig "z" none) (.sig "04'H3" none)]⟩
+      (by decide +kernel)]
+  exact verilog_const_spelling_same_circuit _ _ _ _ (by decide +kernel)
+example : (circOfText {} exTL "module m(z); output [3:0] z; assign z = 04'H3; endmodule").map (·.err) = some false := by decide +kernel
+/-- what the grammar does NOT have: base `o`, `_` separators, blanks inside the constant, a sign letter — syntax errors -/
+example : parseVerilog "module m(z); assign z = 4'o3; endmodule" = none ∧ parseVerilog "module m(z); assign z = 4'b0_011; endmodule" = none ∧
+    parseVerilog "module m(z); assign z = 4 'b0011; endmodule" = none ∧ parseVerilog "module m(z); assign z = 4'sb0011; endmodule" = none := by
+  decide +kernel
 end VerilogText
 
 /-! ## `parsed_sem`, bench: the parsed circuit has the Boolean function the description denotes
@@ -1222,12 +1432,32 @@ theorem verilog_end_to_end8 (cfg : Cfg) (tl : TL) (ports : List String) (stmts :
     order ho hfk hall env
 
 /-- **from TEXT**: the net of the circuit built from the model's reading of the printed module text is `verilogNet` of the
-transformed statement list — so the theorems above speak about circuits parsed from text (`verilog_text_layout_irrelevant`: any layout) -/
+transformed statement list — so the theorems above speak about circuits parsed from text (any spelling, any layout:
+`verilog_text_classes_to_net`).  `hpos` / `hrok` (audit 2, finding 1): the text is inside the raise guard, i.e. not one the real
+parser rejects (`verilog_text_accepted`) -/
 theorem verilog_text_to_net (cfg : Cfg) (tl : TL) (m : KV.VerilogText.VModule) (rs : List RStmt)
-    (hv : KV.VerilogText.validModule m = true) (hr : KV.VerilogText.toRs m.stmts = some rs) :
+    (hv : KV.VerilogText.validModule m = true) (hr : KV.VerilogText.toRs m.stmts = some rs)
+    (hpos : m.stmts.any KV.VerilogText.VStmt.hasPos = false) (hrok : rs.all RStmt.ok = true) :
     (KV.VerilogText.circOfText cfg tl (KV.VerilogText.printVerilog [m])).map (fun C => C.toNet C.ioVerilog) =
       some (verilogNet cfg tl m.ports (rs.map transform)) := by
-  rw [verilog_text_to_netlist cfg tl m rs hv hr]
+  rw [verilog_text_accepted cfg tl m rs hv hr hpos hrok]
+  rfl
+
+/-- **from TEXT, every spelling and every layout** (token classes, audit finding 10(a)): for ANY text that spells the token stream
+of the module token by token with members of the spelling classes (`spellsB`) in any layout (`layoutOK`), inside the raise guard
+(`hpos`, `hrok`): the net of the circuit built from the model's reading of that text is `verilogNet` of the transformed statement
+list, and its `err` flag is the one of `module` -/
+theorem verilog_text_classes_to_net (cfg : Cfg) (tl : TL) (m : KV.VerilogText.VModule) (rs : List RStmt)
+    (hv : KV.VerilogText.validModule m = true) (hr : KV.VerilogText.toRs m.stmts = some rs)
+    (hpos : m.stmts.any KV.VerilogText.VStmt.hasPos = false) (hrok : rs.all RStmt.ok = true)
+    (g0 : List Char) (l : List (KV.VerilogText.CT × List Char))
+    (hl : KV.VerilogText.spellsB (l.map (·.1)) (KV.VerilogText.modulesT [m]) = true)
+    (hg0 : KV.VerilogText.gapV .ws g0 = true) (hlay : KV.VerilogText.layoutOK l = true) :
+    (KV.VerilogText.circOfText cfg tl (String.ofList (g0 ++ KV.VerilogText.renderL l))).map (fun C => (C.toNet C.ioVerilog, C.err)) =
+      some (verilogNet cfg tl m.ports (rs.map transform), (module cfg tl m.ports (rs.map transform)).err) := by
+  rw [KV.VerilogText.circOfText_of_parse cfg tl _ m (verilog_text_token_classes [m] (by simp [hv]) g0 l hl hg0 hlay)]
+  simp only [KV.VerilogText.circOfModule, hr, hpos, hrok]
+  simp [Circ.failIf]
   rfl
 
 /-! ### non-vacuity: `module m(a, z, y); input a; output z, y; wire n; DFF_X1 f (.D(n), .Q(q), .QN(qn));
